@@ -561,6 +561,14 @@ impl Stream {
             let pending_entries = group.add_pending(consumer_name, entries.clone());
             Ok(pending_entries)
         } else {
+            // NOACK deliveries are not pending but still advance the group
+            if noack && after_id == StreamId::max() {
+                if let Some(last) = entries.last() {
+                    if last.id > group.get_last_id() {
+                        group.set_id(last.id);
+                    }
+                }
+            }
             Ok(entries)
         }
     }
